@@ -46,7 +46,7 @@ WIDE = {
     "C14": SIGNED + UNSIGNED + WORDS,
 }
 # operand pairs per wide type (quick, thorough); measured: ~1.5-4 ms of TLC time per judged event
-PAIRS = {"C11": (400, 5000), "C12": (1000, 8000), "C13": (340, 4000), "C14": (220, 3000)}
+PAIRS = {"C11": (280, 5000), "C12": (1000, 8000), "C13": (260, 4000), "C14": (150, 3000)}
 
 
 def _env():
